@@ -660,6 +660,32 @@ func c02Worker(sh *explore.Shard) {
 			}
 		}
 	}
+	// (d) tree DAGs with every entry kind (gitlinks and symlinks are entries too) x all tree orders
+	{
+		al := gen.TreeAlphabet{Names: []string{"a", "bbb", "c"}, Leaves: "bls", MaxEntries: 3}
+		kmax := 2
+		gen.TreeDAGs(kmax, al, func(r *mrepo.Repo, lv gen.Leaves, trees []mrepo.ID) bool {
+			idx++
+			if !sh.Mine(idx) {
+				return true
+			}
+			if sh.Expired() {
+				return false
+			}
+			sc := treeScenario(r, trees, false)
+			sc.Desc = fmt.Sprintf("entry kinds treedag #%d", idx)
+			l := defaultListing(sc)
+			n.beginScenario()
+			cnt, _ := gen.Orders(sc.Repo, l, gen.OrderSpace{Trees: true}, func(order []mrepo.ID) bool {
+				n.one(sc, order, sizes.NameStyleNone, true, nil)
+				return true
+			})
+			if cnt > 1 {
+				sh.C.Nontrivial++
+			}
+			return true
+		})
+	}
 	// (c) absent kinds: blob-only and tree-only root sets must report 0 for the other kinds
 	{
 		idx++
